@@ -17,6 +17,13 @@ TRUSTED = [
     "Suicide), ModelPL.v (.frac-cache save as create-temp / write / rename WITHOUT any fsync, power loss = lost not-yet-synced renames "
     "+ every file cut to any length; .del renames and removals without directory sync) - tied to /repo by the classes par:*, use:*, "
     "cache:save-ops, cache:powerloss",
+    "hand-written model ModelProxy.v: the proxyFrac state machine as the code has it (fields active / sealed / readonly; the four states of "
+    "the header comment of proxy_frac.go plus the fifth one trySetSuicided really produces: both pointers nil, readonly still false), the "
+    "two critical sections of proxyFrac.Seal, trySetSuicided / sealWg.Wait / second trySetSuicided of proxyFrac.Suicide, FracManager.seal's "
+    "treatment of the result (nil -> go on, ErrSealingFractionSuicided -> skip, anything else -> logger.Fatal = process death), rotate, "
+    "shiftFirstFrac, Stop()'s seal-on-exit - any interleaving of these steps; Suicides of pushed-out fractions in ANY order (a superset of the "
+    "real FIFO order); the file operations stay in Model.v / ModelPar.v (C15_proxy_dispatch_agrees_with_directory_model relates the two "
+    "dispatches; ModelPar merges shiftFirstFrac and the first trySetSuicided into one step) - tied to /repo by the classes proxy:*",
     "crash model: process crash after any single create/rename/unlink (harness/internal/crashfs rebuilds the directory from the strace log); "
     "crash points inside a pass are the prefixes of the traced (sequential) log; power loss: directory operations reach the disk in issue order (journalled metadata), file "
     "data only up to the last fsync (crashfs PowerLoss); without the ordering assumption the .del protocol is NOT safe "
@@ -37,6 +44,8 @@ ASSUME = [
     "sizes reported by Info do not change during one retention pass",
     "KeepMetaFile = false (as cmd/seq-db sets it); power loss inside docs/meta writes is property C01's subject",
     "a reader uses a fraction only through Fraction.DataProvider and calls the release function it got (searcher/fetcher do)",
+    "FracManager.seal is called at most once per fraction (rotate returns each fraction once; Stop() seals fm.active, which rotate never "
+    "returned; Load seals before the manager runs) and frac.Seal itself does not fail (an I/O error while writing the index is Fatal by design)",
     "file system persists create/rename/unlink in issue order across a power loss (no directory fsync follows the .del renames, the removals "
     "or the .frac-cache rename; the data directory is fsynced only by NewActive and Seal)",
 ]
@@ -48,9 +57,16 @@ RULE = ("generated histories of bulk / rotate+seal / rotate / retention pass / c
         "interleaved log of the real goroutines against the model's programs, a restart on every crash point of the observed interleaving and "
         "of re-orderings (oldest-first, newest-first, round-robin, seeded random merges) rebuilt with crashfs; readers holding data providers "
         "of the oldest fraction (sealed in process, sealed and loaded, unsealed) while the real pass deletes it; every operation boundary of "
-        "every .frac-cache save with the cache file cut to 0 / 1 / half / all-but-one / all bytes. non-trivial = some fraction is in an "
+        "every .frac-cache save with the cache file cut to 0 / 1 / half / all-but-one / all bytes; scripted interleavings on the real FracManager "
+        "in a child (a Fatal = observed death of the child): rotate, the seal goroutine of a rotated fraction run to the schedule points "
+        "seal.readonly / seal.swapped / its end, real retention passes pushing out the fraction a pending / running / finished seal works on "
+        "(suicide before seal-start, while sealing, after the swap, after the replacement; suicide before rotate; two outsiders with the second "
+        "one being sealed; a second pass queued behind a blocked one), Stop() with seal-on-exit after retention pushed the current fraction "
+        "out, seeded random scripts - after every step the list and the three fields of every proxy, at the end a restart with every document "
+        "fetched and searched. non-trivial = some fraction is in an "
         "intermediate file set / the window has more than one operation / the pass removed some but not all fractions / the crash lies strictly "
-        "inside a pass / a provider is out when the deletion is requested / the cache file is really cut; distinct by input")
+        "inside a pass / a provider is out when the deletion is requested / the cache file is really cut / a retention pass and a seal "
+        "goroutine (or Stop's seal-on-exit) met on the same fraction; distinct by input")
 
 
 def harness_args(tier, seed, outdir):
